@@ -1,0 +1,9 @@
+//go:build !verif
+
+package mjml
+
+// verifYield is a no-op outside verification builds (inlined away).
+func verifYield(string) {}
+
+// verifHashOverride never overrides outside verification builds.
+func verifHashOverride(string) (uint64, bool) { return 0, false }
